@@ -12,6 +12,8 @@ import Driver.Admission
 import Driver.ExitRace
 import Driver.C19
 import Driver.C17
+import Driver.LeakyBucket
+import Driver.Factory
 
 def main (args : List String) : IO UInt32 := do
   match args with
@@ -32,6 +34,11 @@ def main (args : List String) : IO UInt32 := do
       | "exitrace" => Driver.ExitRace.run ops impl
       | "c19" => Driver.C19.run ops impl
       | "c17" => Driver.C17.run ops impl
+      | "leakybucket" => Driver.LeakyBucket.run ops impl
+      | "factory" => Driver.Factory.run "" ops impl
+      | "factory-c13" => Driver.Factory.run "c13-" ops impl
+      | "factory-c14" => Driver.Factory.run "c14-" ops impl
+      | "factory-c15" => Driver.Factory.run "c15-" ops impl
       | _ => do IO.eprintln s!"unknown model {model}"; return 2
     return (if t.diffs == 0 && t.oracleFails == 0 then 0 else 1)
   | _ =>
